@@ -804,6 +804,91 @@ def control_flow(case, ctx):
                                     or (kind == 'switch' and k % 3 > 0)))
 
 
+class _Looper(nn.Module):
+  limit: int = 3
+  cond_writes: str = 'none'     # 'none' | 'carried' | 'broadcast'
+  lifted: bool = True
+  spelling: int = 0
+
+  @nn.compact
+  def __call__(self, x):
+    self.variable('state', 'steps', lambda: jnp.zeros((), jnp.int32))
+    self.variable('state', 'polls', lambda: jnp.zeros((), jnp.int32))
+    self.variable('aux', 'seen', lambda: jnp.zeros((), jnp.int32))
+    scale = self.param('scale', lambda rng: jnp.full((), 1.5))
+
+    def cond_fn(mdl, c):
+      if mdl.cond_writes == 'carried':
+        mdl.put_variable('state', 'polls',
+                         mdl.get_variable('state', 'polls') + 1)
+      elif mdl.cond_writes == 'broadcast':
+        mdl.put_variable('aux', 'seen', mdl.get_variable('aux', 'seen') + 1)
+      return mdl.get_variable('state', 'steps') < mdl.limit
+
+    def body_fn(mdl, c):
+      mdl.put_variable('state', 'steps',
+                       mdl.get_variable('state', 'steps') + 1)
+      return c * scale
+    if self.is_initializing():
+      return x
+    if self.lifted:
+      carry = ['state', ('state',), 'state'][self.spelling % 3]
+      return nn.while_loop(cond_fn, body_fn, self, x, carry_variables=carry,
+                           broadcast_variables=['params', 'aux'])
+    c = x
+    while cond_fn(self, c):
+      c = body_fn(self, c)
+    return c
+
+
+@clause('while_cond_writes',
+        strategy=lambda: st.tuples(
+            st.integers(0, 4), st.sampled_from(['none', 'carried',
+                                                'broadcast']),
+            st.sampled_from(['state', 'both', 'true']), st.integers(0, 5),
+            st.integers(0, 2**16)),
+        quick=60, thorough=1500, quick_shards=6, thorough_shards=16,
+        shrink=False,
+        rule='nn.while_loop whose condition reads the carried state and '
+        'optionally writes a carried or a broadcast collection (trip count '
+        '0-4, start state 0-5, mutable = the carried collection / both / '
+        'True) vs the Python while loop over the same two functions: the '
+        'lifted loop either raises a flax error for the write or returns the '
+        'Python loop\'s output and collections -- a write is never silently '
+        'dropped; non-trivial = the condition writes')
+def while_cond_writes(case, ctx):
+  limit, writes, mut, start, seed = case
+  x = jnp.arange(3.0) + 1.0 + seed % 7
+  mutable = {'state': 'state', 'both': ['state', 'aux'], 'true': True}[mut]
+  with sut('init'):
+    v = unfreeze(_Looper().init(jax.random.key(0), x))
+  v['state']['steps'] = jnp.asarray(min(start, limit + 1), jnp.int32)
+  kw = dict(limit=limit, cond_writes=writes, spelling=seed)
+  plain_err = None
+  try:
+    yp, up = _Looper(lifted=False, **kw).apply(v, x, mutable=mutable)
+  except ferrors.FlaxError as e:
+    plain_err = e
+  try:
+    yl, ul = _Looper(lifted=True, **kw).apply(v, x, mutable=mutable)
+  except ferrors.FlaxError as e:
+    # a rejected write is fine (the loop cannot carry it out)
+    require(writes != 'none', lambda: 'nn.while_loop with a read-only '
+            f'condition raised {type(e).__name__}: {e}')
+    ctx.note(labels=[writes, mut, 'raised'], nontrivial=True)
+    return
+  require(plain_err is None, lambda: 'nn.while_loop accepted what the Python '
+          f'loop rejects with {type(plain_err).__name__}')
+  require(out_eq(yp, yl, 1e-6), lambda: f'nn.while_loop output {yl} differs '
+          f'from the Python loop {yp}')
+  require(set(up) == set(ul) and tree_close(up, ul, 0), lambda: 'nn.while_loop'
+          f' (condition writes: {writes}) returned collections '
+          f'{jax.tree_util.tree_map(np.asarray, unfreeze(ul))}, the Python '
+          f'loop {jax.tree_util.tree_map(np.asarray, unfreeze(up))}: a write '
+          'inside cond_fn was dropped without an error')
+  ctx.note(labels=[writes, mut, 'equal'], nontrivial=writes != 'none')
+
+
 KNOWN_CASE = [
     {'dim': 1, 'prog': {'style': 'compact', 'cls': 'A', 'ops': [{'op': 'tanh'}]},
      'shared': [], 'batch': [2], 'xseed': 1, 'seed': 0},
